@@ -205,13 +205,23 @@ func (w *walWrap) AppendAndSync(le *proto.LogEntry, cb func(err error)) {
 			c.mu.Lock()
 			e := c.entryOfLocked(le2, true)
 			w.n.appendShadowLocked(e, "leader-append")
+			var giveUp *op
 			if c.curOp != nil && c.curOp.id == e.vid {
 				c.curOp.appended = true
 				c.curOp.off = e.off
 				c.curOp.term = e.term
 				c.curOp.node = w.n.id
+				if c.curOp.cancelAtSync {
+					giveUp = c.curOp
+				}
 			}
 			c.mu.Unlock()
+			if giveUp != nil {
+				// the client's context ends exactly now: the entry is durable on the leader, the leader has not yet
+				// registered its wait for the commit
+				giveUp.cancelled = true
+				giveUp.cancel()
+			}
 		} else {
 			c.mu.Lock()
 			if c.curOp != nil && !c.curOp.appended {
